@@ -18,8 +18,12 @@ for W, short in (("hypercorn.asyncio.worker_context", "asyncio"), ("hypercorn.tr
            ("C18.mark.terminate", "implies(self.max_requests is not None and self.requests > self.max_requests, self.terminate.flag)", "C18,C15"),
            ("C18.mark.not-early", "implies(not old(self.terminate.flag) and (self.max_requests is None or self.requests <= self.max_requests), not self.terminate.flag)", "C18"),
            ("C18.mark.disabled", "implies(self.max_requests is None, self.requests == old(self.requests))", "C18"),
+           # C15: counting a request only *asks* for the graceful exit (terminate); that shutdown
+           # has begun (terminated: connections stop taking requests, idle ones close at once) is
+           # announced by worker_serve alone, after the trigger -- not from inside a request
+           ("C15.mark.does-not-announce", "self.terminated.flag == old(self.terminated.flag)", "C15,C18"),
        ],
-       props=("C18", "C16"))
+       props=("C18", "C16", "C15"))
     fn(WC + ".__init__", params={"max_requests": "opt int"}, ghost_post=["self.terminate.g_sticky = True", "self.terminated.g_sticky = True"],
        ensures=[("C18.ctx.init", "self.requests == 0 and not self.terminate.is_set() and not self.terminated.is_set()", "C18,C16"),
                 ("C18.ctx.budget", "self.max_requests == max_requests", "C18,C16")],
